@@ -63,6 +63,14 @@ func main() {
 	}()
 	select {
 	case <-done:
+		// PROBE_LINGER=<ms>: stay alive after the verdict, so that leftover background work of the typechecker
+		// (a worker that goes on after reporting) shows up as a crash of this process
+		if ms := os.Getenv("PROBE_LINGER"); ms != "" {
+			var n int
+			fmt.Sscan(ms, &n)
+			time.Sleep(time.Duration(n) * time.Millisecond)
+			fmt.Println("LINGERED quietly")
+		}
 	case <-time.After(10 * time.Second):
 		fmt.Println("TIMEOUT (no verdict within 10 s)")
 		os.Exit(3)
